@@ -440,7 +440,7 @@ func ruleC06Dispatch(r *Run) {
 	m := newChainModel(w)
 	tm := newTierModel(w)
 	e := &seqEngine{w}
-	disp := w.Fn("rux", "Router.handleHTTPRequest")
+	disp := w.Dispatcher()
 	setH := w.Fn("rux", "Context.SetHandlers")
 	setFn := w.Fn("rux", "Context.Set")
 	qcalls := callsToFn(disp, tm.quick)
